@@ -12,12 +12,12 @@ CHECKS = {
    "DESIGN.md §4 C06"),
  "C15": ("hostile", "exploration",
    "generated hostile inputs (arbitrary bytes and structured mutations of valid encodings from the C12/C13/C14/C16/C17 generators) for 24 decoder entry points, each case in an isolated worker process with panic, abort/stack-overflow, allocation and CPU-time oracles; ddmin minimisation of failures",
-   "Each case runs in a child process on an 8 MiB-stack thread under catch_unwind with a counting global allocator (requests above 64 MiB are served by mmap(MAP_NORESERVE) so a huge reservation is measured instead of aborting) and per-thread CPU accounting plus a 10 s CPU watchdog; the parent attributes a process death to the case that was started and restarts after it. A returned value or error is fine; a panic, abort, stack overflow, more than 8 MiB + 256 B/byte of memory or more than 250 ms + 20 us/byte of CPU (minimum of three runs) is a violation, minimised with ddmin in further child processes; a failing case is first re-run in a process of its own and only counts when it reproduces (a wall-clock stall is exit 2). Mutations include chains of 2-64 nested arrays/maps with huge declared lengths in front of any item. Sixteen growth families (HID packet streams, CBOR/JSON lists, unknown members, labels ...) are measured at n and 4n: CPU time at 4n must stay within 8x the time at n. Regression inputs for the repaired defects D7-D11, D8b and D14 run first in every campaign.",
+   "Each case runs in a child process on an 8 MiB-stack thread under catch_unwind with a counting global allocator (requests above 64 MiB are served by mmap(MAP_NORESERVE) so a huge reservation is measured instead of aborting) and per-thread CPU accounting plus a 10 s CPU watchdog; the parent attributes a process death to the case that was started and restarts after it. A returned value or error is fine; a panic, abort, stack overflow, more than 8 MiB + 256 B/byte of memory or more than 250 ms + 20 us/byte of CPU (minimum of three runs) is a violation, minimised with ddmin in further child processes; a failing case is first re-run in a process of its own and only counts when it reproduces (a wall-clock stall is exit 2). Inputs also include CTAPHID trains of up to 700 continuation packets and COSE keys with coordinates of any sizes. Mutations include chains of 2-64 nested arrays/maps with huge declared lengths in front of any item. Sixteen growth families (HID packet streams, CBOR/JSON lists, unknown members, labels ...) are measured at n and 4n: CPU time at 4n must stay within 8x the time at n. Regression inputs for the repaired defects D7-D11, D8b and D14 run first in every campaign.",
    "'out of proportion' is a numeric threshold chosen by the harness; a wall-clock stall without CPU use is inconclusive, not a violation",
    "DESIGN.md §4 C15"),
  "C18": ("hostile", "exploration",
    "differential testing: generated requests and authenticator states driven through <Authenticator as Ctap2Api> and through the direct methods on two authenticators built from the same description, in isolated worker processes (termination oracle)",
-   "For generated getInfo / makeCredential / getAssertion requests (valid and failing in every documented way), store contents, capabilities, hmac-secret configurations and user-validation behaviours, the trait call must terminate (a stack overflow or abort kills the worker and is attributed to the case) and agree with the direct call: same status byte on errors; same authenticator data, selected credential, user entity, extension outputs and a verifying signature on successes (registrations by shape, as keys and ids are random); same abstract store state, same user-validation call log and same sequence of store calls. RP IDs are also arbitrary text (0-70 characters, 1-4 byte characters) and store calls may fail with any status byte, both sides armed alike; makeCredential carries explicit hmac-secret inputs and the authenticators are configured with default / empty / other transport lists.",
+   "For generated getInfo / makeCredential / getAssertion requests (valid and failing in every documented way), store contents, capabilities, hmac-secret configurations and user-validation behaviours, the trait call must terminate (a stack overflow or abort kills the worker and is attributed to the case) and agree with the direct call: same status byte on errors; same authenticator data, selected credential, user entity, extension outputs and a verifying signature on successes (registrations by shape, as keys and ids are random); same abstract store state, same user-validation call log and same sequence of store calls. RP IDs are also arbitrary text (0-70 characters, 1-4 byte characters) and store calls may fail with any status byte, both sides armed alike; makeCredential carries explicit hmac-secret inputs and user handles of 1-255 bytes, getAssertion per-credential PRF inputs, and the authenticators are configured with default / empty / other transport lists.",
    "two separately built but identically described authenticators stand for 'an authenticator in the same state'",
    "DESIGN.md §4 C18"),
  "C13": ("codec", "exploration",
@@ -32,12 +32,12 @@ CHECKS = {
    "DESIGN.md §4 C14"),
  "C12": ("codec", "exploration",
    "proptest-generated authenticator data values: independent fixed-offset decoder (layout oracle), round-trip, and enumeration of every strict prefix / single-byte corruption of a subset",
-   "Values built with the public constructor and setters over RP IDs, counters, flag sets, AAGUIDs, credential-id lengths at every u8/u16 boundary up to 65535 (and beyond for the constructor guard), EC2 keys (parameters in any order, optionally with key id / key operations) and both extension output types, optionally followed by a second extension-setter call, are encoded and decoded by the harness's own layout decoder (rpIdHash recomputed from the RP ID, big-endian counter, AT/ED iff section present, aaguid/length/id/COSE key/extension map bytes) and by the library (round-trip equality, absent counter reads back as 0); every strict prefix, reserved flag bits and flagged-but-missing sections must be rejected; corrupted encodings must not panic and must decode to a fixpoint.",
+   "Values built with the public constructor and setters over RP IDs, counters, flag sets, AAGUIDs, credential-id lengths at every u8/u16 boundary up to 65535 (and beyond for the constructor guard), EC2 keys (parameters in any order, optionally with key id / key operations; RP IDs whose hash mimics a CBOR head) and both extension output types, optionally followed by a second extension-setter call, are encoded and decoded by the harness's own layout decoder (rpIdHash recomputed from the RP ID, big-endian counter, AT/ED iff section present, aaguid/length/id/COSE key/extension map bytes) and by the library (round-trip equality, absent counter reads back as 0); every strict prefix, reserved flag bits and flagged-but-missing sections must be rejected; corrupted encodings must not panic and must decode to a fixpoint.",
    "AT/ED are controlled by the section setters only (set_flags gets UP/UV/BE/BS); trailing bytes are not constrained by the statement",
    "DESIGN.md §4 C12"),
  "C16": ("hid", "exploration",
    "complete payload-length sweep 0..=7700 plus proptest messages through an independent packet parser and a fresh receiver (round-trip oracle); complete enumeration of all order-preserving merges of short multi-channel streams plus generated merges",
-   "Every payload length 0..=7700 (and 65535/65536/70000) is sent; the bytes written are parsed by the harness's own CTAPHID packet parser (64-byte packets, header layout, sequence numbers from 0 with bit 7 clear, zero padding, concatenation equals payload, nothing accepted above 7609) and fed to a fresh ChannelHandler (nothing before the last packet, exactly one equal message on it, orphan continuation yields nothing). For 2-4 channels all order-preserving merges of streams with up to 9 packets in total are enumerated for nine command rotations (so INIT, CANCEL ... appear on every channel position) and longer streams get generated merges: uniformly mixed ones, and skewed ones in which one channel pauses inside its message while other channels send whole messages of up to 129 packets and a further channel starts only afterwards; a third of the generated merges run on a receiver that still holds given-up transmissions on the same channels.",
+   "Every payload length 0..=7700 (and 65535/65536/70000) is sent; the bytes written are parsed by the harness's own CTAPHID packet parser (64-byte packets, header layout, sequence numbers from 0 with bit 7 clear, zero padding, concatenation equals payload, nothing accepted above 7609) and fed to a fresh ChannelHandler (nothing before the last packet, exactly one equal message on it, orphan continuation yields nothing). For 2-4 channels all order-preserving merges of streams with up to 9 packets in total are enumerated for nine command rotations (so INIT, CANCEL ... appear on every channel position) and longer streams get generated merges: uniformly mixed ones, and skewed ones in which one channel pauses inside its message while other channels send whole messages of up to 129 packets and a further channel starts only afterwards; a third of the generated merges run on a receiver that still holds given-up transmissions on the same channels; sequences of transmissions through one receiver (with immediate repeats) must each be delivered once.",
    "channel id byte order accepted as either endianness but fixed within a message; refusals at or below 7609 are measured (the sender refuses exactly 7609)",
    "DESIGN.md §4 C16"),
  "C17": ("u2f", "exploration",
@@ -47,7 +47,7 @@ CHECKS = {
    "DESIGN.md §4 C17"),
  "C19": ("sched", "exploration",
    "harness-owned scheduler over hand-polled ceremonies: complete DFS over all schedules of small configurations plus proptest-generated schedules; invariant oracle over results, final store and the store event log",
-   "Two or three real authenticators share one Arc<Mutex<_>> / Arc<RwLock<_>> store (inner store suspends inside calls so guards are held across suspensions, user validation suspends too). Every decision 'poll the k-th runnable ceremony' is a choice point; all schedules of ~400 fixed configurations (all pair types x suspension counts, some triples) are enumerated by prefix replay, larger configurations get generated shrinkable schedules. Judged: no deadlock (nobody runnable while ceremonies unfinished), every successful registration's credential present at the end, same-credential assertions pairwise distinct with the largest equal to the stored value, no unexpected failures. Ceremony sets also contain an assertion that the authenticator refuses after the user prompt (PRF on a credential without secrets) next to successful ones: then the stored counter must lie between the largest reported one and start + number of assertions, and in every schedule above the start value once an assertion was answered.",
+   "Two or three real authenticators share one Arc<Mutex<_>> / Arc<RwLock<_>> store (inner store suspends inside calls so guards are held across suspensions, user validation suspends too). Every decision 'poll the k-th runnable ceremony' is a choice point; all schedules of ~400 fixed configurations (all pair types x suspension counts, some triples) are enumerated by prefix replay, larger configurations get generated shrinkable schedules. Judged: no deadlock (nobody runnable while ceremonies unfinished), every successful registration's credential present at the end, same-credential assertions pairwise distinct with the largest equal to the stored value, no unexpected failures. Ceremony sets also contain an assertion that the authenticator refuses after the user prompt (PRF on a credential without secrets) next to successful ones: then the stored counter must lie between the largest reported one and start + number of assertions, and in every schedule above the start value once an assertion was answered. The store double can refuse the n-th counter update (the issuing assertion must fail) and its update only rewrites records it finds.",
    "known finding D13 (overlapping lookup..update windows of two assertions on one credential) is recognised from the tagged store event log and counted; the same symptom without overlap, any deadlock and any lost credential are violations. Determinism relies on the harness owning all suspension points",
    "DESIGN.md §4 C19"),
  "C07": ("faults", "fault_enumeration",
@@ -62,7 +62,7 @@ CHECKS = {
    "DESIGN.md §4 C09"),
  "C04": ("consent", "exploration",
    "complete enumeration of the finite configuration product on fresh authenticators with scripted user-validation doubles; statement-derived oracle plus a metamorphic pair over store content",
-   "All ~9k combinations of operation, requested rk/up/uv (handed over as a value, or through the request's CBOR encoding with default-valued options and the emptied options map left out), verification and presence capability, user-validation outcome (4 results + 3 error codes), pin-auth, store content and exclude list are executed at the authenticator API and (reduced) through Client; success requires the reported presence/verification, UP/UV bits must equal what the double reported, every missing-consent class must fail with the store snapshot unchanged and with the same outcome whether or not a matching credential exists, and the credential shown to check_user (every time it is consulted) must be the one that signs (two matching credentials are stored; in 1 344 further configurations another party inserts a further credential in front while the user is asked). The space is finite and is enumerated completely.",
+   "All ~9k combinations of operation, requested rk/up/uv (handed over as a value, or through the request's CBOR encoding with default-valued options and the emptied options map left out), verification and presence capability, user-validation outcome (4 results + 3 error codes), pin-auth, store content and exclude list are executed at the authenticator API and (reduced) through Client; success requires the reported presence/verification, UP/UV bits must equal what the double reported, every missing-consent class must fail with the store snapshot unchanged and with the same outcome whether or not a matching credential exists, and the credential shown to check_user (every time it is consulted) must be the one that signs (two matching credentials are stored; in 1 344 further configurations another party inserts a further credential in front while the user is asked; verification requests without the capability also on an authenticator that served a verified ceremony before; a store whose items convert into passkeys fallibly). The space is finite and is enumerated completely.",
    "doubles implement the public UserValidationMethod / CredentialStore traits; the counter setting is on so that a premature update would show in the snapshot",
    "DESIGN.md §4 C04"),
  "C05": ("stores", "exploration",
@@ -72,7 +72,7 @@ CHECKS = {
    "DESIGN.md §4 C05"),
  "C11": ("ceremony", "exploration",
    "complete enumeration of capability x residentKey x requireResidentKey x credProps (x CTAP rk) through the real client/authenticator against the table in the statement",
-   "All ~400 configurations (incl. PRF requested alongside, the store capability changing while the user is being asked, the store inside each lock wrapper, authenticators without configured user verification) are run through Client::register + three authentications under userVerification preferred / discouraged / required (and make_credential/get_assertion for the CTAP-level rk): the rk option that reaches the store must follow the WebAuthn mapping, the stored user handle must exist exactly when the credential is discoverable under the store capability, a required resident key on a non-discoverable-only store must be refused with nothing stored, credProps.rk when requested must equal the stored discoverability and the assertion must return a user handle exactly when one is stored. The space is finite and enumerated completely.",
+   "All ~400 configurations (incl. PRF requested alongside, the store capability changing while the user is being asked, the store inside each lock wrapper also under lock contention, authenticators without configured user verification, a final assertion with a two-id allow list) are run through Client::register + three authentications under userVerification preferred / discouraged / required (and make_credential/get_assertion for the CTAP-level rk): the rk option that reaches the store must follow the WebAuthn mapping, the stored user handle must exist exactly when the credential is discoverable under the store capability, a required resident key on a non-discoverable-only store must be refused with nothing stored, credProps.rk when requested must equal the stored discoverability and the assertion must return a user handle exactly when one is stored. The space is finite and enumerated completely.",
    "capability is injected through the reference store's get_info",
    "DESIGN.md §4 C11"),
  "C02": ("ceremony", "exploration",
@@ -97,7 +97,7 @@ CHECKS = {
    "DESIGN.md §4 C01"),
  "C10": ("psl", "exploration",
    "complete rule sweep + proptest generated names against a reference PSL implementation (differential oracle)",
-   "Every rule of the shipped .dat is swept (itself, extended by 1-3 labels, leading label removed/replaced, each of the list's frequent labels placed directly below it) and hundreds of thousands of generated names are compared with an independent implementation of the publicsuffix.org algorithm that reads the .dat at run time; arbitrary strings get structural checks (label-aligned suffix, one more label, empty labels rejected, no panic). Exhaustive over rules, sampled over names: right level for a table-driven lookup whose failure modes are per-rule.",
+   "Every rule of the shipped .dat is swept (itself, extended by 1-3 labels, leading label removed/replaced, each of the list's frequent labels placed directly below it) and, in the other direction, every node path of the compiled table is used as a name and hundreds of thousands of generated names are compared with an independent implementation of the publicsuffix.org algorithm that reads the .dat at run time; arbitrary strings get structural checks (label-aligned suffix, one more label, empty labels rejected, no panic). Exhaustive over rules, sampled over names: right level for a table-driven lookup whose failure modes are per-rule.",
    "trusts the idna crate for rule conversion and the harness's ~100-line reference algorithm; agreement asserted on every name without empty labels (literal label matching), address-like names included",
    "DESIGN.md §4 C10"),
 }
